@@ -68,14 +68,66 @@ def _alphabet(run: Run, I: Interp) -> frozenset[str]:
     return frozenset(A)
 
 
+def _manager_self(st: State):
+    return st.alloc(HObj("obj", cls=f"{ZM}.ZIDManager", fields={"_next_ids_path": Opaque("path:NEXTIDS"), "_mutable_next_id_map": None}))
+
+
+def _io_probes(get_result):
+    """Library behaviour needed to interpret get_next without touching a file: the id map is whatever json.loads gives."""
+    def path_method(I2, recv, name, args, kwargs, st, node):
+        if name in ("exists", "is_file"):
+            return [(True, st), (False, st.fork())]
+        if name in ("read_text", "read_bytes"):
+            return [(Opaque("filetext"), st)]
+        if name == "open":
+            return [(Opaque("handle"), st)]
+        if name in ("write_text", "write_bytes"):
+            return [(None, st)]
+        return None
+
+    def json_method(I2, recv, name, args, kwargs, st, node):
+        if name in ("loads", "load"):
+            return [(Opaque("idmap"), st)]
+        if name in ("dump", "dumps"):
+            return [(None if name == "dump" else Opaque("jsontext"), st)]
+        return None
+
+    def idmap_method(I2, recv, name, args, kwargs, st, node):
+        if name == "get":
+            return get_result(I2, args, st)
+        if name in ("__setitem__", "update", "setdefault"):
+            return [(None, st)]
+        return [(Opaque("idmap"), st)] if name == "copy" else None
+
+    def handle_method(I2, recv, name, args, kwargs, st, node):
+        return [(None if name in ("write", "close", "__exit__") else recv, st)]
+
+    return {"method:path:NEXTIDS": path_method, "method:ext:json": json_method, "method:idmap": idmap_method, "method:handle": handle_method,
+            "call:*": lambda I2, fv, args, kwargs, st, node: ([(args[0] if fv.cls == "ext:builtins.dict" and args else Opaque("idmap"), st)] if False else None)}
+
+
 def _seed_ids(run: Run, I: Interp) -> list[str]:
-    seeds = []
-    fi = I.model.func(F_GET)
-    for n in walk_no_nested(fi.node):
-        if isinstance(n, ast.Call) and isinstance(n.func, ast.Attribute) and n.func.attr == "get" and len(n.args) == 2 and isinstance(n.args[1], ast.Constant) and isinstance(n.args[1].value, str):
-            seeds.append(n.args[1].value)
+    """The suffix handed out for a date that has no entry yet: the default of the map lookup in get_next,
+    found by interpreting get_next with a map whose .get() answers with its default."""
+    seeds: list[str] = []
+
+    def get_default(I2, args, st):
+        d = args[1] if len(args) > 1 else None
+        if isinstance(d, str) and d not in seeds:
+            seeds.append(d)
+        return [(d, st)]
+
+    probes = _io_probes(get_default)
+    probes[F_NEXT] = lambda I3, args, kwargs, st, node: [(Opaque("succ"), st)]
+    I2 = Interp(I.model, probes=probes)
+    st0 = State()
+    try:
+        I2.run_function(F_GET, [_manager_self(st0), Opaque("date")], st=st0)
+    except Exception as e:
+        run.undecided("C07.R1", "get_next", f"cannot interpret get_next: {type(e).__name__}: {e}")
+        return []
     if not seeds:
-        run.undecided("C07.R1", "get_next", "cannot find the first suffix handed out for a new date (`.get(date, <seed>)`)")
+        run.undecided("C07.R1", "get_next", "cannot find the first suffix handed out for a new date (default of the map lookup)")
     return seeds
 
 
@@ -224,23 +276,25 @@ def check(run: Run) -> None:
 
     # ------------------------------------------------------------- R3
     eff = Effects(model)
-    fi_w = model.func(F_WRITE)
-    w_eff = [e for _, e in eff.direct(fi_w) if e.kind == "FILE_WRITE"]
-    run.check("C07.R3", "_write_to_disk writes NEXTIDS", bool(w_eff) and all(e.target == "NEXTIDS" for e in w_eff), "_write_to_disk",
-              ", ".join(e.tag() for e in w_eff) or "no write", "the persistence routine does not write next_ids.json", file=FILE, node=fi_w.node)
-    wparam = fi_w.params()[1].arg if len(fi_w.params()) > 1 else None
-    dumps = [c for c in ast.walk(fi_w.node) if isinstance(c, ast.Call) and ast.unparse(c.func) in ("json.dump", "json.dumps")]
-    ok_dump = False
-    for c in dumps:
-        a = c.args[0] if c.args else None
-        while isinstance(a, ast.Call) and ast.unparse(a.func) in ("dict", "sorted", "OrderedDict") and a.args:
-            a = a.args[0]
-        if isinstance(a, ast.Call) and isinstance(a.func, ast.Attribute) and a.func.attr == "items":
-            a = a.func.value
-        ok_dump = ok_dump or (isinstance(a, ast.Name) and a.id == wparam)
-    run.check("C07.R3", "_write_to_disk persists the whole map it is given", ok_dump, "_write_to_disk", dumps[0] if dumps else "no dump",
-              "the persisted map is not the map that was passed in (entries are filtered / rebuilt): counters of other dates are dropped and those dates restart at the first suffix, "
-              "re-issuing ZIDs that are already in use", file=FILE, node=fi_w.node)
+    cls = model.cls(f"{ZM}.ZIDManager")
+    mod_funcs = [f for q, f in sorted(model.funcs.items()) if q.startswith(ZM + ".")]
+    writers = [f for f in mod_funcs if f.qualname != F_GET and any(e.kind == "FILE_WRITE" and e.target == "NEXTIDS" for _, e in eff.direct(f))]
+    in_get = [e for _, e in eff.direct(fi_get) if e.kind == "FILE_WRITE" and e.target == "NEXTIDS"]
+    run.check("C07.R3", "next_ids.json is written by the manager", bool(writers) or bool(in_get), "ZIDManager", "no NEXTIDS write", "nothing in the ZID manager writes next_ids.json", file=FILE, node=fi_get.node)
+    for fi_w in writers + ([fi_get] if in_get else []):
+        wparams = [a.arg for a in fi_w.params() if a.arg not in ("self", "cls")]
+        dumps = [c for c in ast.walk(fi_w.node) if isinstance(c, ast.Call) and ast.unparse(c.func) in ("json.dump", "json.dumps")]
+        ok_dump = False
+        for c in dumps:
+            a = c.args[0] if c.args else None
+            while isinstance(a, ast.Call) and ast.unparse(a.func) in ("dict", "sorted", "OrderedDict") and a.args:
+                a = a.args[0]
+            if isinstance(a, ast.Call) and isinstance(a.func, ast.Attribute) and a.func.attr == "items":
+                a = a.func.value
+            ok_dump = ok_dump or (isinstance(a, ast.Name) and (a.id in wparams or fi_w is fi_get))
+        run.check("C07.R3", f"{fi_w.name} persists the whole map it is given", ok_dump, fi_w.name, dumps[0] if dumps else "no dump",
+                  "the persisted map is not the map that was passed in (entries are filtered / rebuilt): counters of other dates are dropped and those dates restart at the first suffix, "
+                  "re-issuing ZIDs that are already in use", file=FILE, node=fi_w.node)
     paths = enum_paths(fi_get.node)
     n_ret = 0
     for p in paths:
@@ -263,19 +317,16 @@ def check(run: Run) -> None:
         if a >= 0:
             stmt = p.events[a][1]
             mapname = ast.unparse(stmt.targets[0].value)
-            wcalls = [c for e in p.events[a:r] if e[0] == "stmt" for c in ast.walk(e[1]) if is_call_to("_write_to_disk")(c)]
+            wcalls = [node for e in p.events[a:r] if e[0] == "stmt" for node, tag, via in eff.node_tags(fi_get, e[1]) if tag == "FILE_WRITE:NEXTIDS" and isinstance(node, ast.Call) and via != "direct"]
             same = any(ast.unparse(arg) == mapname for c in wcalls for arg in c.args)
             run.check("C07.R3", "the map that is written is the one that was advanced", same or not wcalls, "ZIDManager.get_next", "writes a different map",
                       f"get_next advances `{mapname}` but writes something else to disk", file=FILE, node=stmt)
     run.floor("get_next return paths", n_ret, 1)
     # the map comes from disk on every call: the property reads NEXTIDS, and any attribute its
     # decision depends on is never assigned outside __init__
-    fi_map = model.func(F_MAP) if model.has_func(F_MAP) else None
-    if fi_map is None:
-        run.undecided("C07.R3", "_next_id_map", "anchor vanished")
-    else:
-        reads = [n for n in walk_no_nested(fi_map.node) if isinstance(n, ast.Call) and isinstance(n.func, ast.Attribute) and n.func.attr in ("read_text", "read_bytes", "load", "loads")]
-        run.check("C07.R3", "the id map is read from disk", bool(reads), "ZIDManager._next_id_map", "no read", "the next-id map is not read from next_ids.json", file=FILE, node=fi_map.node)
+    loaders = [m for m in cls.methods.values() if m.name != "__init__" and any(isinstance(n, ast.Call) and isinstance(n.func, ast.Attribute) and n.func.attr in ("read_text", "read_bytes", "load", "loads") for n in walk_no_nested(m.node))]
+    run.check("C07.R3", "the id map is read from disk", bool(loaders), "ZIDManager", "no read", "the next-id map is never read from next_ids.json", file=FILE, node=fi_get.node)
+    for fi_map in loaders:
         cond_attrs = set()
         for n in walk_no_nested(fi_map.node):
             if isinstance(n, (ast.If, ast.IfExp)):
@@ -283,7 +334,6 @@ def check(run: Run) -> None:
                     if isinstance(a, ast.Attribute) and isinstance(a.value, ast.Name) and a.value.id == "self" and not isinstance(getattr(a, "ctx", None), ast.Store):
                         cond_attrs.add(a.attr)
         stale = []
-        cls = model.cls(f"{ZM}.ZIDManager")
         for mname, m in cls.methods.items():
             if mname == "__init__":
                 continue
@@ -295,20 +345,15 @@ def check(run: Run) -> None:
                   f"`self.{stale[0][1].attr if stale else ''}` decides whether the file is re-read and is assigned in {stale[0][0] if stale else ''}: "
                   "a cached map survives across calls while another manager instance advances the file", file=FILE, node=stale[0][1] if stale else None)
     # shape returned by get_next
-    def map_probe(I2, args, kwargs, st, node):
-        return [(Opaque("idmap"), st)]
+    def two_or_three(I2, args, st):
+        s2 = st.fork()
+        return [(SeqStr((CharSet(A), CharSet(A))), st), (SeqStr((CharSet(A),) * 3), s2)]
 
-    def idmap_method(I2, recv, name, args, kwargs, st, node):
-        if name == "get":
-            s2 = st.fork()
-            return [(SeqStr((CharSet(A), CharSet(A))), st), (SeqStr((CharSet(A),) * 3), s2)]
-        return [(None, st)]
-
-    I2 = Interp(model, probes={F_MAP: map_probe, "method:idmap": idmap_method, F_WRITE: lambda *a: [(None, a[3])],
-                               F_NEXT: lambda I3, args, kwargs, st, node: [(Opaque("succ"), st)]})
-    mgr = Opaque("ZIDManager")
+    probes2 = _io_probes(two_or_three)
+    probes2[F_NEXT] = lambda I3, args, kwargs, st, node: [(Opaque("succ"), st)]
+    I2 = Interp(model, probes=probes2)
     st0 = State()
-    self_ref = st0.alloc(HObj("obj", cls=f"{ZM}.ZIDManager", fields={}))
+    self_ref = _manager_self(st0)
     shapes = []
     for v, st in I2.run_function(F_GET, [self_ref, Opaque("date")], st=st0):
         if isinstance(v, Raised):
